@@ -587,4 +587,129 @@ theorem foreign_history (s : TdfSt) (ops : List Op) (hops : ∀ op ∈ ops, Tabl
     obtain ⟨f1, h1⟩ := hstep
     exact ih (step s op).1 (fun o ho => hops o (by simp [ho])) f1 h1
 
+/-! ### frame condition on ANY table: what an operation on one type leaves of the entries of other types -/
+
+/-- what C04 says must survive: type, format code, size, creation and modification date, comment -/
+def Entry.meta (e : Entry) : Nat × Nat × Int × Int × Int × Str := (e.typ, e.fmt, e.size, e.cdate, e.mdate, e.comment)
+
+@[simp] theorem shiftAfter_meta (old x : Entry) : (shiftAfter old x).meta = x.meta := by
+  unfold shiftAfter Entry.meta; split <;> rfl
+
+theorem remove_frame_any (s : TdfSt) (t : Nat) (now : Int) (x : Entry) (hx : x ∈ s.entries) (hxt : x.typ ≠ t) :
+    ∃ x' ∈ (removeBlock s t now).1.entries, x'.meta = x.meta := by
+  cases hfind : findType t s.entries with
+  | none =>
+    have : (removeBlock s t now).1 = s := by unfold removeBlock; simp [hfind]
+    rw [this]; exact ⟨x, hx, rfl⟩
+  | some pos =>
+    rw [removeBlock_entries s t now pos hfind]
+    obtain ⟨e, h1, h2, h3⟩ := findIdxBy_some _ _ _ hfind
+    have het : e.typ = t := by simpa using h2
+    rw [h3] at hx
+    have hx' : x ∈ s.entries.take pos ++ s.entries.drop (pos + 1) := by
+      rcases List.mem_append.mp hx with h | h
+      · exact List.mem_append.mpr (Or.inl h)
+      · rcases List.mem_cons.mp h with rfl | h
+        · exact absurd het hxt
+        · exact List.mem_append.mpr (Or.inr h)
+    refine ⟨shiftAfter (s.entries.getD pos unusedEntry) x, ?_, shiftAfter_meta _ _⟩
+    exact List.mem_append.mpr (Or.inl (List.mem_map.mpr ⟨x, hx', rfl⟩))
+
+theorem add_frame_any (s : TdfSt) (b : BlkArg) (c : Str) (now : Int) (x : Entry) (hx : x ∈ s.entries) (hx0 : x.typ ≠ 0) :
+    ∃ x' ∈ (addBlock s b c now).1.entries, x'.meta = x.meta := by
+  by_cases hd : hasType b.typ s.entries = true
+  · have : (addBlock s b c now).1 = s := by unfold addBlock; simp [hd]
+    rw [this]; exact ⟨x, hx, rfl⟩
+  · have hd' : hasType b.typ s.entries = false := by simpa using hd
+    cases hf : firstUnused s.entries with
+    | none =>
+      have : (addBlock s b c now).1 = s := by unfold addBlock; simp [hd', hf]
+      rw [this]; exact ⟨x, hx, rfl⟩
+    | some pos =>
+      cases hchk : checkArg b c now with
+      | error e =>
+        have : (addBlock s b c now).1 = s := by unfold addBlock; simp [hd', hf, hchk]
+        rw [this]; exact ⟨x, hx, rfl⟩
+      | ok pl =>
+        by_cases hh : (s.entries.drop (pos + 1)).any (fun e => e.typ != 0) = true
+        · have : (addBlock s b c now).1 = s := by unfold addBlock; simp [hd', hf, hchk, hh]
+          rw [this]; exact ⟨x, hx, rfl⟩
+        · have hh' : (s.entries.drop (pos + 1)).any (fun e => e.typ != 0) = false := by simpa using hh
+          rw [addBlock_entries s b c now pos pl hd' hf hchk hh']
+          obtain ⟨slot, h1, h2, h3⟩ := findIdxBy_some _ _ _ hf
+          have hslot : slot.typ = 0 := by simpa using h2
+          rw [h3] at hx
+          rcases List.mem_append.mp hx with h | h
+          · exact ⟨x, List.mem_append.mpr (Or.inl h), rfl⟩
+          · rcases List.mem_cons.mp h with rfl | h
+            · exact absurd hslot hx0
+            · refine ⟨{ x with off := (s.entries.getD pos unusedEntry).off + b.size }, ?_, rfl⟩
+              exact List.mem_append.mpr (Or.inr (List.mem_cons_of_mem _ (List.mem_map.mpr ⟨x, h, rfl⟩)))
+
+/-- the type an operation is about -/
+def Op.typ : Op → Nat
+  | .add b _ _ => b.typ
+  | .remove t _ => t
+  | .replace b _ _ => b.typ
+  | .set b _ => b.typ
+  | .reopen => 0
+
+theorem frame_step_any (s : TdfSt) (op : Op) (hop : TableOp op) (x : Entry) (hx : x ∈ s.entries) (hx0 : x.typ ≠ 0)
+    (hxt : x.typ ≠ op.typ) : ∃ x' ∈ (step s op).1.entries, x'.meta = x.meta := by
+  have hrepl : ∀ (b : BlkArg) (c : Option Str) (now : Int), x.typ ≠ b.typ →
+      ∃ x' ∈ (replaceBlock s b c now).1.entries, x'.meta = x.meta := by
+    intro b c now hb
+    unfold replaceBlock
+    cases hfind : s.entries.find? (fun e => e.typ == b.typ) with
+    | none => exact ⟨x, hx, rfl⟩
+    | some old =>
+      simp only
+      cases hchk : checkArg b (c.getD old.comment) now with
+      | error e => exact ⟨x, hx, rfl⟩
+      | ok pl =>
+        simp only
+        split
+        · exact ⟨x, hx, rfl⟩
+        · obtain ⟨x1, hx1, hm1⟩ := remove_frame_any s b.typ now x hx hb
+          cases hr : removeBlock s b.typ now with
+          | mk s1 o =>
+            rw [hr] at hx1
+            cases o with
+            | ok =>
+              have h10 : x1.typ ≠ 0 := by
+                have : x1.typ = x.typ := by have := congrArg Prod.fst hm1; simpa [Entry.meta] using this
+                rw [this]; exact hx0
+              obtain ⟨x2, hx2, hm2⟩ := add_frame_any s1 b (c.getD old.comment) now x1 hx1 h10
+              exact ⟨x2, hx2, hm2.trans hm1⟩
+            | err e => exact ⟨x1, hx1, hm1⟩
+  cases op with
+  | add b c now => exact add_frame_any s b c now x hx hx0
+  | remove t now => exact remove_frame_any s t now x hx hxt
+  | replace b c now => exact hrepl b c now hxt
+  | set b now =>
+    show ∃ x' ∈ (setBlock s b now).1.entries, x'.meta = x.meta
+    unfold setBlock
+    split
+    · exact hrepl b none now hxt
+    · exact add_frame_any s b defaultComment now x hx hx0
+  | reopen => exact absurd hop (by simp [TableOp])
+
+/-- a block whose type no operation of the history is about keeps its format code, size, dates and comment — on ANY table -/
+theorem frame_history_any (s : TdfSt) (ops : List Op) (hops : ∀ op ∈ ops, TableOp op) (x : Entry) (hx : x ∈ s.entries)
+    (hx0 : x.typ ≠ 0) (hxt : ∀ op ∈ ops, x.typ ≠ op.typ) :
+    ∃ x' ∈ (runOps s ops).entries, x'.meta = x.meta := by
+  induction ops generalizing s x with
+  | nil => exact ⟨x, hx, rfl⟩
+  | cons op ops ih =>
+    obtain ⟨x1, hx1, hm1⟩ := frame_step_any s op (hops op (by simp)) x hx hx0 (hxt op (by simp))
+    have h10 : x1.typ ≠ 0 := by
+      have : x1.typ = x.typ := by have := congrArg Prod.fst hm1; simpa [Entry.meta] using this
+      rw [this]; exact hx0
+    have h1t : ∀ o ∈ ops, x1.typ ≠ o.typ := by
+      intro o ho
+      have : x1.typ = x.typ := by have := congrArg Prod.fst hm1; simpa [Entry.meta] using this
+      rw [this]; exact hxt o (by simp [ho])
+    obtain ⟨x2, hx2, hm2⟩ := ih (step s op).1 (fun o ho => hops o (by simp [ho])) x1 hx1 h10 h1t
+    exact ⟨x2, hx2, hm2.trans hm1⟩
+
 end Tdf
